@@ -43,6 +43,8 @@ def run(ctx):
     conc.burst(ctx, 1, 8, 60 if ctx.quick() else 1500, kind=7, what=' (refused calls interleaved, 8 threads)')
     for kind, what, k in ((0, 'encaps', 1500), (1, 'PKE encrypt', 800), (2, 'header generate', 800)):
         conc.burst(ctx, 1, 16, k if ctx.quick() else 12 * k, kind=kind, what=f' (all {what}; contention at volume)')
+    # a third of a million encapsulations compared with one another (a seed or state of 32 bits repeats itself at this volume)
+    conc.volume(ctx, 16, 20000 if ctx.quick() else 60000)
     # histories: a public value that has been REPLACED (by a rekey) is never published again, whatever is disabled, pruned,
     # updated or re-derived afterwards ("every rekey publishes a public value never published before")
     import histcheck as hc, profiles, dumps
@@ -120,4 +122,6 @@ def replay(ctx, path):
     for l in r.stdout.split('\n'):
         if l.startswith('VAL '): _, k, v = l.split(' '); vals.setdefault(k, []).append(v)
     bad = {k: len(v) - len(set(v)) for k, v in vals.items() if len(v) != len(set(v))}
-    print(bad or 'all distinct'); return 1 if bad or 'FAIL' in r.stdout else 0
+    dv = [l for l in r.stdout.split('\n') if l.startswith('DUPV ')]
+    for l in dv[:5]: print(l)
+    print(bad or ('all distinct' if not dv else f'{len(dv)} repeated values')); return 1 if bad or dv or 'FAIL' in r.stdout else 0
